@@ -61,7 +61,8 @@ SortedPairs(S) == SetToSortSeq({<<a, b>> \in S \X S : a <= b},
                                LAMBDA p, q : p[1] < q[1] \/ (p[1] = q[1] /\ p[2] < q[2]))
 
 Group(sec, who, fn, grid, k0, n, scl, per) ==
-  [t |-> "cells", sec |-> sec, who |-> who, fn |-> fn, grid |-> grid, k0 |-> k0, n |-> n, scl |-> scl, ev |-> n * per]
+  [t |-> "cells", sec |-> sec, who |-> who, fn |-> fn, grid |-> grid, k0 |-> k0, n |-> n, scl |-> scl,
+   ev |-> IF fn = Zero THEN 0 ELSE n * per]     \* a zero-filled slot is not evaluated through any user function: it cannot fail
 
 Line(t) == [t |-> t, ev |-> 0]
 
